@@ -46,8 +46,10 @@ pub fn build_valid(c: &XzCase, st: &mut LocalStats) -> Result<(XzSpec, XzFile, V
         }
         Err(e) => return Err(format!("strict parser rejects generated file: {:?}", e)),
     }
+    // liblzma allocates the announced dictionary up front: consult it only for
+    // dictionary properties up to 64 MiB
     #[cfg(feature = "liblzma")]
-    {
+    if spec.blocks.iter().all(|b| b.dict_prop <= 30) {
         let lib = crate::ffi_liblzma::xz_stream(&file.bytes, expected.len() + (1 << 20));
         if !lib.ok() || lib.out != expected || lib.consumed != file.bytes.len() {
             return Err(format!(
@@ -102,6 +104,12 @@ pub fn classify_xz(c: &XzCase, spec: &XzSpec, file: &XzFile, st: &mut LocalStats
         st.class(&format!("vli:unpacked {}B", vli_len(spec.blocks[i].content.len() as u64)));
         if spec.blocks[i].content.is_empty() {
             st.class("block:empty content");
+        }
+        if spec.blocks[i].dict_prop > 30 {
+            st.class("lzma2 dict property > 30");
+        }
+        if spec.blocks[i].dict_prop == 40 {
+            st.class("lzma2 dict property == 40 (4 GiB - 1)");
         }
     }
     st.class(&format!("indexpad:{}", file.layout.index_pad));
@@ -165,6 +173,7 @@ impl Property for C03 {
             ("indexpad:3", 500 * m),
             ("vli:unpadded 3B", 20 * m),
             ("blocks:>=128 (2-byte record count)", 300 * m),
+            ("lzma2 dict property == 40 (4 GiB - 1)", 1000 * m),
             ("vli:unpacked 3B", 20 * m),
         ]
     }
